@@ -22,7 +22,8 @@ theorem c02_gate (g : Cfg) (as : List Act) :
 /-- C02 (iii) no lost edge: while unread input sits in the kernel queue of an open conn, either the kernel still
     owes a report (LT: always; ET: an unreported edge; ONESHOT: armed and an unreported edge) or somebody owes
     a read: the poller is inside its loop / about to re-arm or close, or the read task is queued, about to read
-    again, or parked with `readEvents ≥ 2` (an event that arrived after its last read forces another round). -/
+    again, parked with `readEvents ≥ 2` (an event that arrived after its last read forces another round), or in a
+    round that will close the conn (hang-up). -/
 theorem c02_no_lost_edge (g : Cfg) (as : List Act) :
     let s := run g init as
     s.k.qlen > 0 → s.closed = false → willReport g s ∨ owes g s.ps s.task s.re := by
@@ -48,7 +49,7 @@ theorem c02_quiescent (g : Cfg) (as : List Act) :
   rcases c02_no_lost_edge g as hq hc with h | h
   · exact h
   · exfalso
-    rcases h with ⟨i, fl, h⟩ | ⟨fl, h, _⟩ | h | ⟨v, h⟩ | ⟨a, h, _⟩
+    rcases h with ⟨i, fl, h⟩ | ⟨fl, h, _⟩ | h | ⟨v, h⟩ | ⟨a, hx, h, _⟩
     · rw [hp] at h; cases h
     · rw [hp] at h; cases h
     · rw [ht] at h; cases h
@@ -138,21 +139,34 @@ example : let g : Cfg := { mode := .et, async := true, rbs := 0, cap := 3, udp :
     let s := run g init [.push [1], .report true false, .tstep, .tstep, .tstep, .tstep, .tstep]
     s.reads = 5 ∧ s.k.rq = [1] ∧ s.dlv = [] ∧ s.task ≠ .none := by decide
 
-/-- C02 (i), closing clause — FULL STATEMENT (does not hold, see the counterexample): a close triggered by a peer
-    half-close (EPOLLRDHUP without a socket error) never leaves bytes of that peer unread:
-      `∀ g as, (run g init as).lost = 0`.
-    It holds in the synchronous configurations: -/
-theorem c02_close_drained_partial (g : Cfg) (as : List Act) (hs : g.isAsync = false) : (run g init as).lost = 0 :=
-  (drain_run g as init (core_init g) (drain_init g)).lost0 hs
+/-- C02 (i), closing clause: a close triggered by a peer half-close (EPOLLRDHUP without a socket error) never leaves
+    bytes of that peer unread — in every configuration: the synchronous loop is not capped on a hang-up event, and with
+    AsyncReadInPoller the hang-up is handed to the read task, which closes at the end of a round that started after it. -/
+theorem c02_close_drained (g : Cfg) (as : List Act) : (run g init as).lost = 0 :=
+  (drain_run g as init (core_init g) (drain_init g)).lost0
 
-/-- … and fails with AsyncReadInPoller: the poller hands the event to the read task and then closes at once;
-    the task finds the conn closed (known finding C02-async-halfclose). -/
-theorem c02_close_drained_counterexample :
-    let g : Cfg := { mode := .et, async := true, rbs := 8, cap := 3, udp := false }
-    let s := run g init [.push [1, 2, 3], .eof, .report true false, .pstep, .tstep]
-    s.lost = 3 ∧ s.closed = true ∧ s.dlv = [] ∧ s.task = .none := by decide
+/-- … and a hang-up handed to the read task is never forgotten: while the conn is open a task is alive that either
+    knows of it or will go round again. -/
+theorem c02_hup_closes (g : Cfg) (as : List Act) :
+    let s := run g init as
+    s.hup = true → s.closed = false → s.task ≠ .none := by
+  intro s hu hc ht
+  have h := core_run g as init (core_init g)
+  rcases h.hupok.owed hu hc with h' | ⟨v, h'⟩ | ⟨a, hx, h', _⟩ <;> rw [ht] at h' <;> cases h'
 
-/-- non-vacuity of the partial theorem: LT with a burst larger than the per-loop limit, then FIN: drained -/
+/-- non-vacuity, asynchronous: data and FIN in one event — delivered, then closed by the task -/
+example : let g : Cfg := { mode := .et, async := true, rbs := 8, cap := 3, udp := false }
+    let s := run g init [.push [1, 2, 3], .eof, .report true false, .tstep, .tstep, .tstep]
+    s.lost = 0 ∧ s.closed = true ∧ s.cerr = .eof ∧ dlvBytes s = [1, 2, 3] ∧ s.task = .none := by decide
+
+/-- non-vacuity, asynchronous: the hang-up arrives while the task is parked after its last read of an older round —
+    the round that did not know of it does not close; the next one drains and closes -/
+example : let g : Cfg := { mode := .et, async := true, rbs := 8, cap := 3, udp := false }
+    let s := run g init [.push [1], .report true false, .tstep, .tstep, .push [2, 3], .eof, .report true false,
+                         .tstep, .tstep, .tstep, .tstep]
+    s.lost = 0 ∧ s.closed = true ∧ dlvBytes s = [1, 2, 3] := by decide
+
+/-- non-vacuity, synchronous: LT with a burst larger than the per-loop limit, then FIN: drained -/
 example : let g : Cfg := { mode := .lt, async := false, rbs := 1, cap := 1, udp := false }
     let s := run g init [.push [1, 2, 3], .eof, .report true false, .pstep, .pstep, .pstep, .pstep, .pstep]
     s.closed = true ∧ s.lost = 0 ∧ dlvBytes s = [1, 2, 3] := by decide
